@@ -38,7 +38,7 @@ class Node:
                 conns = list(range(min_conn, max_conn+1))
         else:
             raise ValueError('Either supply a list or a lower limit')
-        self.conns = sorted(conns) if conns is not None else None
+        self.conns = sorted(set(conns)) if conns is not None else None
         self.min_conns = min_conns
 
     @property
